@@ -8,6 +8,7 @@ NATIVE = "Tok,ZTok,Tok24"
 def c04(tier, seed):
     runs = [
         Run("faults", "debug", ["prop=C04", "--flavours", NATIVE], shards=4),
+        Run("faults", "release", ["prop=C04", "--flavours", NATIVE], shards=4),
         Run("faults", "miri", ["prop=C04", "--flavours", "HeapTok", "--maxn", "3"], shards=16, label="faults/miri(HeapTok,N<=3)"),
     ]
     if tier == "thorough":
@@ -25,6 +26,7 @@ def c04(tier, seed):
 def c05(tier, seed):
     runs = [
         Run("faults", "debug", ["prop=C05", "--flavours", "Tok,Tok24,ZTok"], shards=4),
+        Run("faults", "release", ["prop=C05", "--flavours", "Tok,Tok24,ZTok"], shards=4),
         Run("faults", "miri", ["prop=C05", "--flavours", "HeapTok", "--maxn", "3"], shards=16, miri_extra="-Zmiri-ignore-leaks",
             label="faults/miri(HeapTok,N<=3)"),
     ]
@@ -82,20 +84,22 @@ def c06(tier, seed):
 
 
 ALLNATIVE = "Tok,Tok24,ZTok,u8,u32,[u64;3],(),String"
+# + odd-sized and wide (512-byte, plain and tracked) elements: size thresholds in the move paths
+SEQNATIVE = ALLNATIVE + ",[u8;3],Fat(512B),FatTok(512B,tracked)"
 
 
 def c09(tier, seed):
     if tier == "quick":
         return [
-            Run("seqops", "debug", ["--flavours", ALLNATIVE, "big=1"], shards=4),
-            Run("seqops", "release", ["--flavours", ALLNATIVE, "big=1"], shards=4),
-            Run("seqops", "miri", ["--flavours", "HeapTok,ZTok,u8,[u64;3]", "--maxn", "4"], shards=16, label="seqops/miri(N<=4)"),
+            Run("seqops", "debug", ["--flavours", SEQNATIVE, "big=1"], shards=4),
+            Run("seqops", "release", ["--flavours", SEQNATIVE, "big=1"], shards=4),
+            Run("seqops", "miri", ["--flavours", "HeapTok,ZTok,u8,[u64;3],Fat(512B)", "--maxn", "4"], shards=16, label="seqops/miri(N<=4)"),
             Run("seqops", "miri", ["--flavours", "u8", "--maxn", "65", "--part", "big", "big=1"], shards=8, label="seqops/miri(big<=65)"),
         ]
     return [
-        Run("seqops", "debug", ["--flavours", ALLNATIVE], shards=8),
-        Run("seqops", "release", ["--flavours", ALLNATIVE], shards=8),
-        Run("seqops", "miri", ["--flavours", "HeapTok,ZTok,u8,u32,[u64;3],(),Tok24", "--maxn", "6", "--part", "small"], shards=32, label="seqops/miri(N<=6)"),
+        Run("seqops", "debug", ["--flavours", SEQNATIVE], shards=8),
+        Run("seqops", "release", ["--flavours", SEQNATIVE], shards=8),
+        Run("seqops", "miri", ["--flavours", "HeapTok,ZTok,u8,u32,[u64;3],(),Tok24,[u8;3],Fat(512B),FatTok(512B,tracked)", "--maxn", "6", "--part", "small"], shards=32, label="seqops/miri(N<=6)"),
         Run("seqops", "miri", ["--flavours", "u8,ZTok", "--maxn", "65", "--part", "big"], shards=8, label="seqops/miri(big<=65)"),
         Run("seqops", "asan", ["--flavours", "HeapTok,String,u8,[u64;3]"], shards=4),
         Run("seqops", "miri-sb", ["--flavours", "u8,HeapTok", "--maxn", "3", "--part", "small"], shards=8, label="seqops/miri-stacked-borrows(advisory)", advisory=True),
@@ -106,6 +110,7 @@ def c03(tier, seed):
     if tier == "quick":
         return [
             Run("history", "debug", ["--flavours", "Tok,ZTok,Tok24,u32,String", "--budget", "2400"], shards=8),
+            Run("history", "release", ["--flavours", "Tok,ZTok,Tok24,u32,String", "--budget", "2400"], shards=8),
             Run("history", "miri", ["--flavours", "HeapTok,ZTok", "--budget", "32"], shards=16, label="history/miri"),
         ]
     return [
@@ -120,6 +125,7 @@ def c07(tier, seed):
     if tier == "quick":
         return [
             Run("collect", "debug", ["--flavours", "Tok,u32,ZTok,Fat"], shards=8),
+            Run("collect", "release", ["--flavours", "Tok,u32,ZTok,Fat"], shards=8),
             Run("collect", "miri", ["--flavours", "HeapTok", "--maxn", "2"], shards=16, label="collect/miri(N<=2)"),
         ]
     return [
@@ -139,6 +145,7 @@ def c15(tier, seed):
     if tier == "quick":
         return [
             Run("heap", "debug", ["prop=C15", "--flavours", HEAP15], shards=4),
+            Run("heap", "release", ["prop=C15", "--flavours", HEAP15], shards=4),
             Run("heap", "miri", ["prop=C15", "--flavours", "HeapTok,u8,ZTok", "--maxn", "3"], shards=16, label="heap/miri(N<=3)"),
         ]
     return [
@@ -153,6 +160,7 @@ def c16(tier, seed):
     if tier == "quick":
         return [
             Run("heap", "debug", ["prop=C16", "--flavours", HEAP16], shards=8),
+            Run("heap", "release", ["prop=C16", "--flavours", HEAP16], shards=8),
             Run("heap", "miri", ["prop=C16", "--flavours", "HeapTok,u64,ZTok", "--maxn", "2"], shards=16, label="heap/miri(N<=2)"),
             Run("heap", "nightly", ["prop=C16", "--flavours", "u64,Tok,ZTok", "--maxn", "3", "--part", "allocfail_unwind"], shards=8, label="heap/nightly(unwinding alloc-error hook,N<=3)"),
         ]
@@ -226,6 +234,7 @@ def c11(tier, seed):
     if tier == "quick":
         return [
             Run("regroup", "debug", ["--flavours", REGF], shards=2),
+            Run("regroup", "release", ["--flavours", REGF], shards=2),
             Run("regroup", "miri", ["--flavours", "HeapTok,ZTok,u32", "--maxn", "9", "--part", "small"], shards=16, label="regroup/miri(NM<=9)"),
         ]
     return [
@@ -254,7 +263,7 @@ def c08(tier, seed):
 
 def c13(tier, seed):
     if tier == "quick":
-        return [Run("cmpfmt", "debug", ["--maxn", "4096"], shards=8)]
+        return [Run("cmpfmt", "debug", ["--maxn", "4096"], shards=8), Run("cmpfmt", "release", ["--maxn", "4096"], shards=8)]
     return [Run("cmpfmt", "debug", ["--maxn", "4096"], shards=16), Run("cmpfmt", "release", ["--maxn", "4096"], shards=16),
             Run("cmpfmt", "miri", ["--maxn", "2", "--budget", "3"], shards=16, label="cmpfmt/miri(N<=2)")]
 
@@ -262,17 +271,17 @@ def c13(tier, seed):
 def c14(tier, seed):
     if tier == "quick":
         return [
-            Run("hex", "debug", ["--maxn", "4096"], shards=4, label="hex/debug(default)"),
-            Run("hex", "fhex-debug", ["--maxn", "4096"], shards=4, label="hex/debug(faster-hex)"),
-            Run("hex", "fhex-release", ["--maxn", "4096"], shards=4, label="hex/release(faster-hex)"),
+            Run("hex", "debug", ["--maxn", "4096", "huge=1"], shards=4, label="hex/debug(default)"),
+            Run("hex", "fhex-debug", ["--maxn", "4096", "huge=1"], shards=4, label="hex/debug(faster-hex)"),
+            Run("hex", "fhex-release", ["--maxn", "4096", "huge=1"], shards=4, label="hex/release(faster-hex)"),
             Run("hex", "miri", ["--maxn", "17"], shards=12, label="hex/miri(fallback,N<=17)"),
             Run("hex", "miri", ["--maxn", "4096", "only_big=1", "big_n=1025"], shards=16, label="hex/miri(fallback,N=1025)"),
         ]
     return [
-        Run("hex", "debug", ["--maxn", "4096"], shards=8, label="hex/debug(default)"),
-        Run("hex", "fhex-debug", ["--maxn", "4096"], shards=8, label="hex/debug(faster-hex)"),
-        Run("hex", "release", ["--maxn", "4096"], shards=8, label="hex/release(default)"),
-        Run("hex", "fhex-release", ["--maxn", "4096"], shards=8, label="hex/release(faster-hex)"),
+        Run("hex", "debug", ["--maxn", "4096", "huge=1"], shards=8, label="hex/debug(default)"),
+        Run("hex", "fhex-debug", ["--maxn", "4096", "huge=1"], shards=8, label="hex/debug(faster-hex)"),
+        Run("hex", "release", ["--maxn", "4096", "huge=1"], shards=8, label="hex/release(default)"),
+        Run("hex", "fhex-release", ["--maxn", "4096", "huge=1"], shards=8, label="hex/release(faster-hex)"),
         Run("hex", "miri", ["--maxn", "256"], shards=32, label="hex/miri(fallback,N<=256)"),
         Run("hex", "miri", ["--maxn", "4096", "only_big=1"], shards=32, label="hex/miri(fallback,N>1024)"),
         Run("hex", "asan", ["--maxn", "4096"], shards=8, label="hex/asan(default)"),
@@ -285,21 +294,21 @@ def c14(tier, seed):
 
 def c19(tier, seed):
     if tier == "quick":
-        return [Run("zc", "debug", [], shards=4), Run("zc", "miri", ["--maxn", "17"], shards=16, label="zc/miri(N<=17)")]
+        return [Run("zc", "debug", [], shards=4), Run("zc", "release", [], shards=4), Run("zc", "miri", ["--maxn", "17"], shards=16, label="zc/miri(N<=17)")]
     return [Run("zc", "debug", [], shards=8), Run("zc", "release", [], shards=8),
             Run("zc", "miri", ["--maxn", "64"], shards=32, label="zc/miri(N<=64)")]
 
 
 def c20(tier, seed):
     if tier == "quick":
-        return [Run("arrmac", "debug", ["--maxn", "4096"], shards=4), Run("arrmac", "miri", ["--maxn", "16"], shards=16, label="arrmac/miri(count<=16)")]
+        return [Run("arrmac", "debug", ["--maxn", "4096"], shards=4), Run("arrmac", "release", ["--maxn", "4096"], shards=4), Run("arrmac", "miri", ["--maxn", "16"], shards=16, label="arrmac/miri(count<=16)")]
     return [Run("arrmac", "debug", ["--maxn", "4096"], shards=8), Run("arrmac", "release", ["--maxn", "4096"], shards=8),
             Run("arrmac", "miri", ["--maxn", "64"], shards=32, label="arrmac/miri(count<=64)")]
 
 
 def c17(tier, seed):
     if tier == "quick":
-        return [Run("serdeq", "debug", [], shards=4), Run("serdeq", "miri", ["--maxn", "3"], shards=16, label="serdeq/miri(N<=3)")]
+        return [Run("serdeq", "debug", [], shards=4), Run("serdeq", "release", [], shards=4), Run("serdeq", "miri", ["--maxn", "3"], shards=16, label="serdeq/miri(N<=3)")]
     return [Run("serdeq", "debug", [], shards=8), Run("serdeq", "release", [], shards=8),
             Run("serdeq", "miri", ["--maxn", "5"], shards=32, label="serdeq/miri(N<=5)"),
             Run("serdeq", "memcheck", ["--maxn", "8"], shards=16)]
